@@ -98,3 +98,22 @@ Theorem C01_chord_fixed_point : forall D notes, 2 <= List.length notes -> chord_
   end.
 Proof. exact chord_export_fixed_point. Qed.
 Print Assumptions C01_chord_fixed_point.
+
+(* DOCUMENT level, single-spine **kern documents.  A cell is in normal form when it is the export of its own token
+   (canonical notes are: C01_canonical_note_is_normal; the same holds for whatever else the fixed-point theorems cover).
+   For every such document - a header line, ANY number of cells in normal form, the terminator - the importer builds one
+   stage per line holding that cell's token, the default export is the document's own grid, and the exported TEXT is
+   read, imported and exported to itself: export o import = identity, hence export o import o export = export. *)
+From KV Require Import Importer Exporter LineReaderProofs ReadBackProofs SingleSpineProofs.
+Theorem C01_single_spine_document_fixed_point : forall bad cells,
+  Forall (normal_cell bad) cells -> (forall c, In c cells -> cell_ok c = true) ->
+  let text := render_rows (one_spine cells) in
+  exists d, load_file bad text = IOk d /\ dumps d default_opts = Ok text /\
+            (plain (chars_of_string text) = true -> loads bad text = IOk d).
+Proof. exact one_spine_text_fixed_point. Qed.
+Print Assumptions C01_single_spine_document_fixed_point.
+
+Theorem C01_canonical_note_is_normal : forall bad n, note_ok n -> canonical_order n ->
+  mem_str (str (print_note n)) bad = false -> normal_cell bad (str (print_note n)).
+Proof. exact canonical_note_is_normal. Qed.
+Print Assumptions C01_canonical_note_is_normal.
